@@ -207,6 +207,49 @@ def glyphmap_roundtrip(chk):
         chk.violation(f"documented glyphmap row parses to {back}", {})
 
 
+def csv_model(chk):
+    """CsvRow.tla (writer / reader over character sequences: RoundTrip, with the pre-fix writer as negative
+    configuration); every row of the model is written by the real csv_line (text compared with the model's) and read
+    back by the real load_from."""
+    from nanoemoji.glyphmap import GlyphMapping, load_from
+
+    res = common.run_tlc("CsvRow", "CsvRow.cfg", timeout=900)
+    chk.add_tlc(res, "CsvRow (every pair of fields of <= 3 characters over blank / comma / quote / ordinary: RoundTrip)")
+    if not res.ok:
+        chk.tlc_violation(res, "CsvRow")
+    neg = common.run_tlc("CsvRow", "CsvRow_noquote.cfg", timeout=900, coverage=False)
+    chk.add_tlc(neg, "CsvRow_noquote (leading blanks left unquoted: expected to violate RoundTrip)")
+    if neg.ok:
+        raise MachineryError("CsvRow_noquote.cfg holds: RoundTrip is vacuous")
+    ch = {"s": " ", "c": ",", "q": '"', "x": "x"}
+    recs = list(res.records)
+    if len(recs) < 5000:
+        raise MachineryError(f"too few CsvRow rows exported ({len(recs)})")
+    r = common.rng("C10", "csv")
+    r.shuffle(recs)
+    drift = 0
+    for rec in recs[: (2500 if chk.tier == "quick" else len(recs))]:
+        svg = "".join(ch[c] for c in rec["row"][0])
+        png = "".join(ch[c] for c in rec["row"][1])
+        gm = GlyphMapping(Path(svg), Path(png) if png else None, (0x1F600,), "g_1f600")
+        if str(gm.svg_file) != svg or (png and str(gm.bitmap_file) != png):
+            continue      # pathlib itself rewrites the spelling (does not happen for this alphabet)
+        line = gm.csv_line()
+        chk.case(key=("csv-model", svg, png), nontrivial=svg[:1] == " " or png[:1] == " " or '"' in svg + png or "," in svg + png)
+        chk.traces_validated += 1
+        want_text = "".join(ch[c] for c in rec["text"])
+        if not line.startswith(want_text + ","):
+            drift += 1
+        try:
+            back = load_from(io.StringIO(line + "\n"))
+        except Exception as e:
+            chk.violation(f"glyph-map row for the paths {svg!r}, {png!r} cannot be parsed back: {type(e).__name__}: {e}", {"row": line})
+            continue
+        if back != (gm,):
+            chk.violation(f"glyph-map row for the paths {svg!r}, {png!r} does not round-trip: written {line!r}, read {back}", {"row": line})
+    chk.notes["csv_text_drift_from_model"] = drift
+
+
 def parts_roundtrip(chk, n):
     from nanoemoji.parts import ReusableParts
     from picosvg.geometric_types import Rect
@@ -371,6 +414,7 @@ def run(chk):
     replay_config(chk, recs, fields)
     glyphmap_roundtrip(chk)
     parts_roundtrip(chk, 12 if quick else 200)
+    csv_model(chk)
     rsp_roundtrip(chk)
     names_legal_and_distinct(chk, 3000 if quick else 200000)
     chk.assumptions += ["file names containing a newline are outside 'legal file name' (ninja cannot carry them either)"]
